@@ -9,6 +9,19 @@ use rust_decimal::{Decimal, RoundingStrategy};
 
 type R = RV<Decimal>;
 
+/// exact remainder (sign of the dividend) through rationals; rust_decimal's own `%` is not reliable
+pub fn rem_exact(a: Decimal, b: Decimal) -> Option<Decimal> {
+    use crate::ev_dec_exact::rat_of_decimal;
+    if b.is_zero() {
+        return None;
+    }
+    let r = rat_of_decimal(a).rem(&rat_of_decimal(b));
+    let (m, s) = r.as_decimal()?;
+    let mut d = Decimal::try_from_i128_with_scale(m.to_u128()? as i128, s).ok()?;
+    d.set_sign_negative(r.neg);
+    Some(d)
+}
+
 pub fn lit(text: &str) -> Option<Decimal> {
     // DIGITS, DIGITS., DIGITS.DIGITS, .DIGITS with at most 28 fractional digits and a 96-bit coefficient
     let mut t = text.to_string();
@@ -154,7 +167,7 @@ pub fn eval(n: &Node, at: Decimal) -> R {
                     if c.is_zero() {
                         return RV::MustErr("remainder by zero");
                     }
-                    match a.checked_rem(c) {
+                    match rem_exact(a, c) {
                         Some(v) => RV::Val(
                             v,
                             if aq == Q::Exact && cq == Q::Exact {
@@ -282,7 +295,7 @@ fn call(fun: Func, args: &[Node], at: Decimal) -> R {
             if vs[1].is_zero() {
                 return RV::MustErr("remainder by zero");
             }
-            match vs[0].checked_rem(vs[1]) {
+            match rem_exact(vs[0], vs[1]) {
                 Some(v) => keep(q, v),
                 None => RV::Unspec("U3: remainder not computable"),
             }
